@@ -1,5 +1,5 @@
 // White-box driver for outqueue.c: random operation histories on the real lzma_outq.
-//  tokens: G | W<i>,<hex> | F<i> | R<n>      (i = index among the live buffers, head = 0)
+//  tokens: G | W<i>,<hex> | F<i> | R<n> | I (lzma_outq_init again)      (i = index among the live buffers, head = 0)
 //  -> hex of everything delivered by the reads, in order, then " <bufs_in_use> <mem consistent?>"
 #include "outqueue.c"
 #include <stdio.h>
@@ -25,6 +25,10 @@ int main(void)
 				while (h[0] && h[1] && b->pos < BUFSZ) { b->buf[b->pos++] = (uint8_t)(hexv(h[0]) << 4 | hexv(h[1])); h += 2; }
 			} else if (tok[0] == 'F') {
 				int i = atoi(tok + 1); if (i >= nl) continue; live[i]->finished = true;
+			} else if (tok[0] == 'I') {
+				// re-initialisation of a queue in use: a new epoch, nothing of the old one may show up
+				if (lzma_outq_init(&q, NULL, 64) != LZMA_OK) { printf("ERR"); break; }
+				nl = 0; printf("/"); first = 0;
 			} else if (tok[0] == 'R') {
 				size_t n = (size_t)atoi(tok + 1); uint8_t out[256]; size_t op = 0; if (n > sizeof out) n = sizeof out;
 				lzma_vli a, b2;
